@@ -41,6 +41,9 @@ PD == [ e1 |-> P(100, <<65001, 65002>>, 0, TRUE, 11, 0, <<>>, 1, 1, {}, 0),     
         i2 |-> P(100, <<65004, 65007>>, 0, FALSE, 15, 5, <<9>>, 5, 5, {}, 0),        \* iBGP-learned, already reflected
         ne |-> P(150, <<65001>>, 0, TRUE, 16, 0, <<>>, 6, 6, {"noexport"}, 0),
         na |-> P(160, <<65001>>, 0, TRUE, 17, 0, <<>>, 7, 7, {"noadvertise", "c1"}, 0),
+        \* both well-known communities (the adapter lists communities in ascending order for even BGP identifiers, descending for odd)
+        nn |-> P(155, <<65001>>, 0, TRUE, 20, 0, <<>>, 10, 10, {"noexport", "noadvertise"}, 0),
+        nr |-> P(156, <<65001>>, 0, TRUE, 23, 0, <<>>, 11, 11, {"noexport", "noadvertise"}, 0),
         ot |-> P(100, <<65001, 65008>>, 0, TRUE, 18, 0, <<>>, 8, 8, {}, 65001),      \* carries OTC
         bk |-> P(170, <<65009>>, 0, TRUE, 19, 0, <<>>, PeerIP, 9, {}, 0),            \* learned from the target peer itself
         st |-> S(10),
